@@ -6,7 +6,7 @@ import hashlib, json, os, re, shutil, subprocess, sys, tempfile, time, copy, sig
 
 HERE = os.path.dirname(os.path.abspath(__file__))
 VERIF = os.path.dirname(HERE)
-BUILD = os.path.join(VERIF, ".build")
+BUILD = os.environ.get("VERIF_BUILD") or os.path.join(VERIF, ".build")
 BIN = os.path.join(BUILD, "htsim.test")
 RACE_BIN = os.path.join(BUILD, "htsim.race.test")
 TEMPLATE = os.path.join(BUILD, "datadir-template")
@@ -40,7 +40,7 @@ def worker_env(extra=None):
 
 def build(race=False):
     t0 = time.time()
-    r = subprocess.run([os.path.join(VERIF, "build.sh")] + (["race"] if race else []), capture_output=True, text=True)
+    r = subprocess.run([os.path.join(VERIF, "build.sh")] + (["race"] if race else []), capture_output=True, text=True, env=dict(os.environ, VERIF_BUILD=BUILD))
     if r.returncode != 0:
         infra("build failed:\n" + r.stdout[-3000:] + r.stderr[-3000:])
     return time.time() - t0
@@ -212,14 +212,39 @@ def run_single(prop, scenario, tier="quick", binpath=None, timeout=None, extra_e
         env = worker_env({"VERIF_PROP": prop, "VERIF_TIER": tier, "VERIF_SCENARIO": sp, "VERIF_OUT": out})
         if extra_env:
             env.update(extra_env)
-        try:
-            r = subprocess.run([binpath, "-test.run", "^TestWorker$", "-test.timeout", "0"], env=env, cwd=d,
-                               stdout=subprocess.DEVNULL, stderr=subprocess.PIPE, timeout=timeout)
-            stderr = crash_excerpt(r.stderr.decode(errors="replace"))
-            rc = r.returncode
-        except subprocess.TimeoutExpired as e:
-            stderr = (e.stderr or b"").decode(errors="replace")
-            return {"verdict": "violation", "kind": "no-quiesce", "site": props.site_of(scenario), "detail": "single run exceeded %ds" % timeout}
+        cfgp = props.get(prop) or {}
+        cpu_limit = cfgp.get("stall_s", 90)
+        rss_limit = cfgp.get("rss_mb", 3000)
+        errp = os.path.join(d, "stderr")
+        with open(errp, "w") as ef:
+            p = subprocess.Popen([binpath, "-test.run", "^TestWorker$", "-test.timeout", "0"], env=env, cwd=d,
+                                 stdout=subprocess.DEVNULL, stderr=ef)
+            t_start = time.time()
+            verdict = None
+            while p.poll() is None:
+                time.sleep(0.05)
+                try:
+                    f = open("/proc/%d/stat" % p.pid).read().rsplit(")", 1)[1].split()
+                    cpu = (int(f[11]) + int(f[12])) / os.sysconf("SC_CLK_TCK")
+                    rss = int(f[21]) * os.sysconf("SC_PAGE_SIZE") / (1 << 20)
+                except Exception:
+                    cpu, rss = 0, 0
+                if rss > rss_limit:
+                    verdict = ("runaway-handler", "process RSS reached %d MiB during one run" % rss)
+                elif cpu > cpu_limit:
+                    verdict = ("runaway-handler", "process consumed %.0f CPU-seconds in one run without finishing" % cpu)
+                elif time.time() - t_start > timeout:
+                    verdict = ("hang", "single run exceeded %ds wall time using %.1f CPU-seconds" % (timeout, cpu))
+                if verdict:
+                    p.kill()
+                    p.wait()
+                    break
+            rc = p.returncode
+        stderr = crash_excerpt(open(errp, errors="replace").read())
+        if verdict:
+            if verdict[0] == "hang":
+                return {"verdict": "infra", "kind": "hang", "site": props.site_of(scenario), "detail": verdict[1]}
+            return {"verdict": "violation", "kind": verdict[0], "site": props.site_of(scenario), "detail": verdict[1]}
         res = None
         if os.path.exists(out):
             for line in open(out):
@@ -474,7 +499,7 @@ def main():
                     if w.open_idx is None:
                         infra("worker %d stalled outside a run (cpu %.1fs)" % (w.wid, spun))
                     if spun > 0.5 * stall_s:
-                        died.append((w, w.open_idx, w.open_seed, "no-quiesce", "worker consumed %.0f CPU-seconds in one step without quiescing" % spun))
+                        died.append((w, w.open_idx, w.open_seed, "runaway-handler", "worker consumed %.0f CPU-seconds in one step without quiescing" % spun))
                     else:
                         died.append((w, w.open_idx, w.open_seed, "hang", "worker made no progress for %ds using %.1f CPU-seconds\n%s" % (stall_s, spun, w.stderr_tail(1500))))
                     nxt = w.open_idx + w.stride
@@ -489,7 +514,7 @@ def main():
                     w.poll()
                     if w.open_idx is None:
                         infra("worker %d exceeded RSS outside a run" % w.wid)
-                    died.append((w, w.open_idx, w.open_seed, "memory-growth", "worker RSS reached %d MiB during one run" % rss))
+                    died.append((w, w.open_idx, w.open_seed, "runaway-handler", "worker RSS reached %d MiB during one run" % rss))
                     nxt = w.open_idx + w.stride
                     w.open_idx = None
                     if nxt < w.hi:
